@@ -27,6 +27,8 @@ pub enum Op {
     /// as Type, but over the bit-serial path after a line glitch: three stray bits (1,0,1), clear() (the documented
     /// timeout recovery), then the 11 bits of the valid frame of this byte through add_bit
     TypeBits(u8),
+    /// as Type, but the byte arrives as a whole 11-bit word through add_word
+    TypeWord(u8),
 }
 
 impl Op {
@@ -43,6 +45,7 @@ impl Op {
             Op::Mods => "mods".into(),
             Op::Type(b) => format!("type:{:02X}", b),
             Op::TypeBits(b) => format!("typebits:{:02X}", b),
+            Op::TypeWord(b) => format!("typeword:{:02X}", b),
         }
     }
     pub fn parse(s: &str) -> Option<Op> {
@@ -59,6 +62,7 @@ impl Op {
             "mods" => Op::Mods,
             "type" => Op::Type(u8::from_str_radix(p.get(1)?, 16).ok()?),
             "typebits" => Op::TypeBits(u8::from_str_radix(p.get(1)?, 16).ok()?),
+            "typeword" => Op::TypeWord(u8::from_str_radix(p.get(1)?, 16).ok()?),
             _ => return None,
         })
     }
@@ -162,6 +166,11 @@ impl HLayout for Wrap {
         Wrap(id)
     }
 }
+impl HLayout for Count {
+    fn make(_id: u8) -> Self {
+        Count(std::cell::Cell::new(0))
+    }
+}
 impl HLayout for AnyLayout {
     fn make(id: u8) -> Self {
         any_of(id as usize)
@@ -244,6 +253,13 @@ fn run_kb<L: HLayout, S: ScancodeSet>(set: S, id: u8, mode: HandleControl, ops: 
                 }
                 other => fmt_ev(&other),
             }),
+            Op::TypeWord(b) => guard(|| match k.add_word(crate::props::frame::encode(*b)) {
+                Ok(Some(ev)) => {
+                    let t = format!("{:?} {:?}", ev.code, ev.state);
+                    format!("{} -> {}", t, fmt_dk(&k.process_keyevent(ev)))
+                }
+                other => fmt_ev(&other),
+            }),
             Op::TypeBits(b) => guard(|| {
                 let r = type_bits(&mut k, *b);
                 match r {
@@ -289,7 +305,7 @@ fn run_layout(form: usize, id: usize, ops: &[Op]) -> Vec<String> {
 fn parse_lspec(s: &str) -> Option<(&str, u8)> {
     let (kind, rest) = s.split_once('-')?;
     let id = match kind {
-        "echo" => rest.parse().ok()?,
+        "echo" | "count" => rest.parse().ok()?,
         _ => layout_by_name(rest)? as u8,
     };
     Some((kind, id))
@@ -342,6 +358,7 @@ pub fn run_part(component: &str, ops: &[Op]) -> Vec<String> {
             };
             match ls.0 {
                 "echo" => run_ed::<Echo>(ls.1, mode, ops),
+                "count" => run_ed::<Count>(ls.1, mode, ops),
                 "wrap" => run_ed::<Wrap>(ls.1, mode, ops),
                 "any" => run_ed::<AnyLayout>(ls.1, mode, ops),
                 "anyref" => run_ed::<&'static AnyLayout>(ls.1, mode, ops),
